@@ -660,6 +660,8 @@ func (vc *VC) mathIntrinsic(name string, args []SV, rt types.Type) (SV, bool) {
 		case "math.Acos":
 			res.T = fmt.Sprintf("(u.acos %s)", a(0))
 			vc.uses["trig"] = true
+			// range of the arc cosine: [0, pi]; the upper bound is pi rounded up in the 62nd digit
+			vc.assume("true", fmt.Sprintf("(and (<= 0.0 %s) (<= %s 3.1415926535897932384626433832795028841971693993751058209749446))", res.T, res.T))
 		default:
 			return res, false
 		}
